@@ -193,8 +193,11 @@ func diff(v0, v1 any, one bool, ignores ...Path) (diffs []Path) {
 				}
 			}
 		}
-		if len(t0) < len(t1) && !ignoreIndex(len(t0), ignores) {
-			diffs = append(diffs, Path{len(t0)})
+		for i := len(t0); i < len(t1); i++ {
+			if !ignoreIndex(i, ignores) {
+				diffs = append(diffs, Path{i})
+				break
+			}
 		}
 	case map[string]any:
 		t1, ok := v1.(map[string]any)
